@@ -78,10 +78,87 @@ def check_pixel_id(prog, rep, m, c):
                     return None
                 t = resolve(term, decide)
                 ok, why = _nearest_cell(t, point, ax, given, surf, rescalls, res)
+                if ok is None:
+                    mv = _pixel_models(t, point, ax, surf, rescalls, pub)
+                    if mv is not None:
+                        ok = not mv
+                        why = ('agrees with the nearest cell centre on every model raster' if ok else
+                               'on a raster with %s coordinates %s (cell size %s) the point %s=%s is the centre of cell %d, the formula gives %s' % mv[0])
                 rep.add('A1', pub, ENTRY, '%s, dimension names %s' % (label, 'given' if given else 'defaulted'), rec.node.lineno, ok,
                         'a coordinate denotes the cell whose centre is nearest: the %s index must be round-to-nearest of '
                         '|%s[%d] - %s-coordinate[0]| / cellsize_%s (int(q + 0.5), round); %s'
                         % ('row' if ax == 'y' else 'column', point, 0 if ax == 'y' else 1, ax, ax, why))
+
+
+def _pixel_models(t, point, ax, surf, rescalls, pub):
+    """the pixel-index term evaluated on model rasters: coordinates ascending and descending, two cell sizes, the point on
+    every cell centre (and a little off it).  [] when it is the nearest cell each time, a list of counterexamples
+    (axis, coords, cell size, axis, value, expected index, computed) otherwise, None when the term cannot be evaluated."""
+    from ..wterm import eval_term, key as tkey, walk as twalk, mentions
+    pointp = next((p_ for p_ in pub.params if p_ == point or p_.startswith(point)), None)
+    resnames = {c_.callee.name for c_ in rescalls.values()}
+    if pointp is None:
+        return None
+
+    def axis_of(d):
+        """which axis a dimension-name term names: the caller's x / y parameter, or dims[-1] / dims[-2]"""
+        if d[0] == 'param' and d[1] in ('x', 'y'):
+            return d[1]
+        if d[0] == 'index' and d[1] == ('attr', surf, 'dims') and d[2][0] == 'const':
+            return {-1: 'x', 1: 'x', -2: 'y', 0: 'y'}.get(d[2][1])
+        return None
+
+    def coords_axis(c_):
+        """'x' / 'y' when the term is the coordinate array of that axis of the surface"""
+        while isinstance(c_, tuple) and c_ and c_[0] in ('data', 'cast'):
+            c_ = c_[1]
+        if isinstance(c_, tuple) and c_ and c_[0] == 'attr' and c_[2] in ('values', 'data'):
+            c_ = c_[1]
+        if isinstance(c_, tuple) and c_ and c_[0] == 'coord' and c_[1] == surf:
+            return c_[2]
+        if isinstance(c_, tuple) and c_ and c_[0] == 'index' and c_[1] in (('attr', surf, 'coords'), surf, ('attr', surf, 'indexes')):
+            return axis_of(c_[2])
+        return None
+    bad = []
+    try:
+        for cs in ([10, 20, 30, 40, 50], [50, 40, 30, 20, 10], [-3, -1, 1, 3], [7.5, 5.0, 2.5, 0.0, -2.5, -5.0]):
+            other = [100, 200, 300]
+            size = abs(cs[1] - cs[0])
+            for i_, centre in enumerate(cs):
+                for v in (centre, centre + Fraction(size) / 5, centre - Fraction(size) / 5):
+                    def hook(x, cs=cs, v=v, other=other, size=size):
+                        if not isinstance(x, tuple) or not x:
+                            return None
+                        if x[0] == 'index' and x[1] == ('param', pointp) and x[2][0] == 'const':
+                            return v if (x[2][1] == 0) == (ax == 'y') else other[1]
+                        if x[0] == 'index' and x[2][0] == 'const' and isinstance(x[2][1], int):
+                            a_ = coords_axis(x[1])
+                            if a_ is not None:
+                                arr = cs if a_ == ax else other
+                                return arr[x[2][1]] if -len(arr) <= x[2][1] < len(arr) else None
+                            if (tkey(x[1]) in rescalls or (x[1][0] == 'call' and x[1][1] in resnames)) and x[2][1] in (0, 1):
+                                # (cellsize_x, cellsize_y): positive cell sizes of the two axes
+                                return size if (x[2][1] == 0) == (ax == 'x') else 100
+                        if x[0] == 'call' and isinstance(x[1], tuple) and x[1][0] == 'method' and x[1][2] in ('min', 'max') and not x[2]:
+                            a_ = coords_axis(x[1][1])
+                            if a_ is not None:
+                                arr = cs if a_ == ax else other
+                                return min(arr) if x[1][2] == 'min' else max(arr)
+                        if x[0] == 'call' and x[1] in ('numpy.min', 'numpy.max', 'numpy.nanmin', 'numpy.nanmax', 'builtins.len') and len(x[2]) == 1:
+                            a_ = coords_axis(x[2][0])
+                            if a_ is not None:
+                                arr = cs if a_ == ax else other
+                                return {'min': min(arr), 'max': max(arr), 'nanmin': min(arr), 'nanmax': max(arr), 'len': len(arr)}[x[1].split('.')[-1]]
+                        return None
+                    r = eval_term(t, {'__hook__': hook})
+                    if r != i_:
+                        bad.append((ax, cs, size, ax, v, i_, r))
+    except (ValueError, ZeroDivisionError, KeyError, TypeError, IndexError) as e_:
+        import os
+        if os.environ.get('XRSA_DEBUG'):
+            print('pixel model not evaluable:', e_)
+        return None
+    return bad
 
 
 def _nearest_cell(t, point, ax, given, surf, rescalls, res):
